@@ -41,6 +41,20 @@ def measure(rec, cls, detail, A, fro2=None, trace=None):
     if trace is not None:
         tr = float(sum(Hf[i, i, 0] for i in range(n)))
         rec.units(t, "TracePreserved", units(abs(tr - trace), scale, 4 * n * n))
+    # call history: the caller works IN PLACE on what it was given back (shift on H, rotations folded into P), then reduces
+    # an equal matrix again - the second answer must again satisfy the contract for A
+    if n >= 2 and not detail.get("second_call"):
+        try:
+            Hq -= Hq[0, 0] * 0 + 3.0
+            Pq[0, :] = Pq[0, :] * 2.0
+        except Exception:
+            pass
+        P2q, H2q = L.hess.hessenbergize(q_from_float(A0))
+        P2, H2 = q_to_float(np.asarray(P2q)), q_to_float(np.asarray(H2q))
+        t2 = rec.new("hessenbergize", cls + ":after-caller-overwrote-result", dict(detail, second_call=True))
+        if list(P2.shape[:2]) == [n, n] and list(H2.shape[:2]) == [n, n]:
+            rec.units(t2, "UnitaryP", S.unitary_units(P2))
+            rec.units(t2, "H_eq_PAPh", units(ofro(omul(omul(P2, A0), oherm(P2)) - H2), scale, 4 * n * n))
 
 
 def _class_job(args):
